@@ -229,7 +229,7 @@ ALL_FEATS = {'metadata', 'xref', 'crypt', 'crypt-noparms', 'dictstr', 'metadata-
 
 def plan(tier):
     if tier == 'quick':
-        return [('v1', 6), ('v2', 10), ('v4', 20), ('r5', 6), ('v5', 1), ('v4-eff', 1), ('v4-dparr', 1), ('direct', 2)]
+        return [('v1', 6), ('v2', 10), ('v4', 22), ('r5', 6), ('v5', 1), ('v4-eff', 1), ('v4-dparr', 1), ('direct', 2)]
     return [('v1', 150), ('v2', 400), ('v4', 700), ('r5', 200), ('v5', 40), ('v4-eff', 10), ('v4-dparr', 10), ('direct', 20)]
 
 
@@ -257,7 +257,7 @@ def gen_cases(rng, tier):
     if not (impl and runner):
         return [(s['enc'], {'kind': 'enc-' + s['kind'], 'nontrivial': True}) for s in specs]
     impl_enc = [vlib.split_impl(l)[0] for l in vlib.run_lines(impl, [s['enc'] for s in specs], timeout=900, shards=8)]
-    iso_enc = vlib.run_lines(runner, [s['enc'] for s in specs], timeout=1400, shards=16)
+    iso_enc = vlib.run_lines(runner, [s['enc'] for s in specs], timeout=1400, shards=8)
     cases = []
     for s, ie, me in zip(specs, impl_enc, iso_enc):
         if not (ie.startswith('(encdoc ') and me.startswith('(encdoc ')):
@@ -319,6 +319,7 @@ SPEC = {
     'partial_note': 'primitive correctness by published vectors + differential runs, not by proof; password preparation is an oracle',
     'impl_timeout': 1200,
     'model_timeout': 1500,
+    'model_shards': 8,      # vlib shards only when there are >= 4 lines per shard
 }
 
 
